@@ -256,6 +256,32 @@ func (rs *bodyStream) read(p []byte) (int, error) {
 	return n, err
 }
 
+// skipChunkLeft skips the chunkLeft bytes of payload that are still to come, piece by piece as they
+// arrive: the declared chunk size comes from the peer and must not be used as a buffer size, and the
+// reader's Skip does not wait for bytes that have not arrived.
+func (rs *bodyStream) skipChunkLeft() error {
+	for rs.chunkLeft > 0 {
+		skip := rs.reader.Len()
+		if skip == 0 {
+			if _, err := rs.reader.Peek(1); err != nil {
+				return err
+			}
+			skip = rs.reader.Len()
+		}
+		if skip > rs.chunkLeft {
+			skip = rs.chunkLeft
+		}
+		if err := rs.reader.Skip(skip); err != nil {
+			return err
+		}
+		if err := rs.reader.Release(); err != nil {
+			return err
+		}
+		rs.chunkLeft -= skip
+	}
+	return nil
+}
+
 func (rs *bodyStream) skipRest() error {
 	// The body length doesn't exceed the maxContentLengthInStream or
 	// the bodyStream has been skip rest
@@ -278,26 +304,8 @@ func (rs *bodyStream) skipRest() error {
 		if rs.chunkLeft > 0 {
 			// the reader stopped inside a chunk: what follows is the rest of its payload,
 			// not a chunk-size line
-			for rs.chunkLeft > 0 {
-				// skip what has arrived, piece by piece: the declared chunk size comes from
-				// the peer and must not be used as a buffer size
-				skip := rs.reader.Len()
-				if skip == 0 {
-					if _, err := rs.reader.Peek(1); err != nil {
-						return err
-					}
-					skip = rs.reader.Len()
-				}
-				if skip > rs.chunkLeft {
-					skip = rs.chunkLeft
-				}
-				if err := rs.reader.Skip(skip); err != nil {
-					return err
-				}
-				if err := rs.reader.Release(); err != nil {
-					return err
-				}
-				rs.chunkLeft -= skip
+			if err := rs.skipChunkLeft(); err != nil {
+				return err
 			}
 			if err := utils.SkipCRLF(rs.reader); err != nil {
 				return err
@@ -314,8 +322,9 @@ func (rs *bodyStream) skipRest() error {
 				return SkipTrailer(rs.reader)
 			}
 
-			err = rs.reader.Skip(chunkSize)
-			if err != nil {
+			// the payload of the chunk may not have arrived completely yet
+			rs.chunkLeft = chunkSize
+			if err = rs.skipChunkLeft(); err != nil {
 				return err
 			}
 
